@@ -38,7 +38,10 @@ FINISH = dict(
          "byte, key file's public key = the CSR's, also at the instant of the post-operation hook. "
          "(iii) contents around 4 KiB / 8 KiB / 64 KiB written large-small-large to every kind of file, and 2 MiB + 1 byte "
          "(judged on hashes by the harness); three issuances by ONE process with chains of different lengths (4-1-3, "
-         "22 kB-1 kB-3 kB), judged at each successful post-operation hook; the served chain without final newline, with two, "
+         "22 kB-1 kB-3 kB), judged at each successful post-operation hook; the same with kp_reuse and a CA that answers the "
+         "repeated order with the SAME end-entity certificate (mock CA option same_leaf) under other / fewer / more upper "
+         "certificates (3-2-1, 2-2-3), with the same certificates behind another separator / in another PEM layout, and "
+         "byte-identical; the served chain without final newline, with two, "
          "with a leading empty line, with CR LF, with text before / between the blocks, with 76-column lines; the download "
          "answered badNonce / 503 without nonce / rateLimited first, the order polls answering 'processing' first.",
 )
@@ -469,6 +472,11 @@ def run_flow(spec, root, helper):
         # several issuances by ONE process: a certificate good for a day is due at once (renew_delay: 30 days);
         # each order gets a chain of its own length (and padding), shorter or longer than the one before
         ca_opts.update(chain_len=spec["chain_lens"], chain_pad=spec.get("chain_pads", 0), valid_secs=86400)
+        # a repeated order (same key, same names: kp_reuse) is answered with the SAME end-entity certificate, what
+        # follows it differs (other upper certificates, another number of them, another layout) or not at all
+        for k_spec, k_opt in (("same_leaf", "same_leaf"), ("chain_seps", "chain_sep"), ("chain_forms", "chain_form")):
+            if spec.get(k_spec) is not None:
+                ca_opts[k_opt] = spec[k_spec]
     if spec.get("retry"):
         # the download (or the poll before it) succeeds at the second try only
         ca_opts.update(order_polls_before_valid=2, order_polls_before_ready=1)
@@ -499,6 +507,7 @@ def judge_attempts(ctx, spec, obs, crt_path, key_path, helper):
     last = {}
     k = 0
     prev_len = None
+    prev_body = prev_pub = None
     for what, _, e in evs:
         if what != "post":
             last[what] = e
@@ -512,6 +521,23 @@ def judge_attempts(ctx, spec, obs, crt_path, key_path, helper):
         sc, sk = snap.get(crt_path), snap.get(key_path)
         shrink = prev_len is not None and len(body) < prev_len
         prev_len = len(body)
+        if spec.get("same_leaf") and prev_body is not None:
+            # what this order's body is to the previous one (measured on what was SERVED, not on what was asked for)
+            a = helper.call({"op": "cert_ders", "pem_hex": prev_body.hex()}).get("ders_hex") or [None]
+            b = helper.call({"op": "cert_ders", "pem_hex": body.hex()}).get("ders_hex") or [None]
+            rel = "identical-bytes" if body == prev_body else "same-certificates-other-layout" if a == b else \
+                "same-leaf-other-rest(%d->%d)" % (len(a), len(b)) if a[0] == b[0] and a[0] is not None else "new-leaf"
+            ctx.count("flow:same-leaf:attempt-%d:%s" % (k, rel))
+            ctx.count("flow:same-leaf:" + rel.split("(")[0])
+            # the order WAS a repeated one (the CSR's key is the previous CSR's: what kp_reuse is about is not judged
+            # here) and the CA was asked to hand the old certificate back: then it must have
+            pub = helper.call({"op": "parse_csr", "csr_b64": last["csr"]["csr_b64"]}).get("pub_der_hex")
+            asked = spec["same_leaf"][min(k - 1, len(spec["same_leaf"]) - 1)] if isinstance(spec["same_leaf"], list) else spec["same_leaf"]
+            if pub is not None and pub == prev_pub and asked and rel == "new-leaf":
+                ctx.broke("generator", "attempt %d: a repeated order (same key, same names) was not answered with the end-entity "
+                          "certificate of the previous one (option same_leaf of the mock CA did not take effect)" % k, replay_obj)
+        prev_body = body
+        prev_pub = helper.call({"op": "parse_csr", "csr_b64": last["csr"]["csr_b64"]}).get("pub_der_hex") if spec.get("same_leaf") else None
         ctx.case({"flow": spec, "attempt": k}, nontrivial=shrink or k == 1)
         ctx.count("flow:attempt-%d:%s" % (k, "shorter-chain" if shrink else "first" if k == 1 else "longer-or-equal-chain"))
         ctx.traces += 1
@@ -625,6 +651,16 @@ def more_flow_specs(quick):
     for kt, lens, pads, kp in (seqs[:3] if quick else seqs):
         out.append(dict(base, key_type=kt, attempts=3, chain_lens=lens, chain_pads=pads, kp_reuse=kp,
                         renew_over_longer=(kt == "rsa2048")))
+    # a REPEATED order answered with the certificate already issued for that key and those names (kp_reuse: the CSR's
+    # key stays), followed by something else than before: other intermediates and fewer / more of them; the very same
+    # certificates with another separator or in another PEM layout (then the end-entity certificate's text differs
+    # too); and, for completeness, the very same bytes (nothing then tells a rewrite from an untouched file)
+    same = [("ecdsa-p256", "leaf", [3, 2, 1], None, None), ("ed25519", "leaf", [2, 2, 3], None, None),
+            ("ecdsa-p384", "chain", [2, 2, 2], ["", "\n", ""], None), ("ecdsa-p256", "chain", [2, 2, 2], None, [None, "wrap76", "crlf"]),
+            ("rsa2048", "chain", [1, 2, 2], None, None), ("ecdsa-p521", ["leaf", "leaf", None], [1, 3, 1], None, [None, "no-final-nl", None])]
+    for kt, mode, lens, seps, forms in (same[:5] if quick else same):
+        out.append(dict(base, key_type=kt, attempts=3, chain_lens=lens, kp_reuse=True, same_leaf=mode, chain_seps=seps,
+                        chain_forms=forms))
     # other byte forms of the served chain: the file is what was served, byte for byte
     for i, form in enumerate(FORMS):
         out.append(dict(base, key_type=KEY_TYPES[(i + 2) % len(KEY_TYPES)] if not quick or i % 3 else "ecdsa-p256",
